@@ -286,6 +286,99 @@ func extractGroup(repo, root string) error {
 		return fmt.Errorf("untranslated: Reader.unsubscribe does not call a cancel func")
 	}
 
+	// consumergroup.go nextGeneration: which collection the partition watchers are started over
+	watcherRange := ""
+	if fd := funcOf(gf, "ConsumerGroup", "nextGeneration"); fd != nil {
+		ast.Inspect(fd.Body, func(n ast.Node) bool {
+			if rs, ok := n.(*ast.RangeStmt); ok && contains(rs.Body, func(m ast.Node) bool {
+				c, ok := m.(*ast.CallExpr)
+				return ok && sel(c.Fun) == "partitionWatcher"
+			}) {
+				watcherRange = sel(rs.X)
+			}
+			return true
+		})
+	}
+	if watcherRange == "" {
+		return fmt.Errorf("untranslated: no `for … range … { …partitionWatcher(…) }` in nextGeneration")
+	}
+
+	// consumergroup.go coordinator(): what the second `connect` dials — the address is built from the FindCoordinator
+	// answer: `<join>(<…>.Host, <…(…>.Port…)>)`, directly or through one local variable.
+	var coordDial []string
+	if fd := funcOf(gf, "ConsumerGroup", "coordinator"); fd != nil {
+		defs := map[string]ast.Expr{}
+		var last *ast.CallExpr
+		ast.Inspect(fd.Body, func(n ast.Node) bool {
+			switch x := n.(type) {
+			case *ast.AssignStmt:
+				if len(x.Lhs) == 1 && len(x.Rhs) == 1 {
+					if id, ok := x.Lhs[0].(*ast.Ident); ok {
+						defs[id.Name] = x.Rhs[0]
+					}
+				}
+			case *ast.CallExpr:
+				if sel(x.Fun) == "connect" {
+					last = x
+				}
+			}
+			return true
+		})
+		var inner func(e ast.Expr) string // the selector at the bottom of conversions / formatting calls
+		inner = func(e ast.Expr) string {
+			if c, ok := e.(*ast.CallExpr); ok && len(c.Args) == 1 {
+				return inner(c.Args[0])
+			}
+			return sel(e)
+		}
+		if last != nil && len(last.Args) == 2 && !last.Ellipsis.IsValid() {
+			arg := last.Args[1]
+			if id, ok := arg.(*ast.Ident); ok && defs[id.Name] != nil {
+				arg = defs[id.Name]
+			}
+			if c, ok := arg.(*ast.CallExpr); ok {
+				coordDial = append(coordDial, fmt.Sprintf("%q", sel(c.Fun)))
+				for _, a := range c.Args {
+					coordDial = append(coordDial, fmt.Sprintf("%q", inner(a)))
+				}
+			} else {
+				coordDial = append(coordDial, fmt.Sprintf("%q", sel(arg)))
+			}
+		}
+	}
+	if len(coordDial) == 0 {
+		return fmt.Errorf("untranslated: coordinator() does not end in connect(dialer, <one address>)")
+	}
+
+	// reader.go (*reader).run: the restart position.  `conn, <start>, err := r.initialize(ctx, <offset>)` is followed by an
+	// assignment `<x> = <start>`: it must be a plain assignment (not a `:=` that shadows) to the function's own offset
+	// parameter, so that the next (re)initialisation starts from where the fetcher stands.
+	restartTok, restartToParam := "", false
+	if fd := funcOf(rf, "reader", "run"); fd != nil {
+		param := ""
+		if ps := fd.Type.Params.List; len(ps) > 0 {
+			if last := ps[len(ps)-1]; len(last.Names) > 0 {
+				param = last.Names[len(last.Names)-1].Name
+			}
+		}
+		startVar := ""
+		ast.Inspect(fd.Body, func(n ast.Node) bool {
+			if a, ok := n.(*ast.AssignStmt); ok && len(a.Rhs) == 1 {
+				if c, ok := a.Rhs[0].(*ast.CallExpr); ok && sel(c.Fun) == "initialize" && len(a.Lhs) == 3 {
+					startVar = sel(a.Lhs[1])
+				}
+				if id, ok := a.Rhs[0].(*ast.Ident); ok && startVar != "" && id.Name == startVar && len(a.Lhs) == 1 && restartTok == "" {
+					restartTok = a.Tok.String()
+					restartToParam = sel(a.Lhs[0]) == param
+				}
+			}
+			return true
+		})
+	}
+	if restartTok == "" {
+		return fmt.Errorf("untranslated: (*reader).run has no `<offset> = <start>` after r.initialize")
+	}
+
 	// reader.go NewReader: the ConsumerGroupConfig literal — which ReaderConfig field feeds which ConsumerGroupConfig field
 	var optPairs []string
 	if fd := funcOf(rf, "", "NewReader"); fd != nil {
@@ -320,6 +413,9 @@ func extractGroup(repo, root string) error {
 	fmt.Fprintf(&b, "def leaveRequestFields : List (String × String) := [%s]\n", strings.Join(leaveReq, ", "))
 	fmt.Fprintf(&b, "def generationLiteral : List (String × String) := [%s]\n", strings.Join(genLit, ", "))
 	fmt.Fprintf(&b, "def unsubscribeCancels : String := %q\n", unsubCancels)
+	fmt.Fprintf(&b, "def restartAssign : String × Bool := (%q, %v)\n", restartTok, restartToParam)
+	fmt.Fprintf(&b, "def watcherRange : String := %q\n", watcherRange)
+	fmt.Fprintf(&b, "def coordinatorDial : List String := [%s]\n", strings.Join(coordDial, ", "))
 	fmt.Fprintf(&b, "def fetchVersionFilter : String := %q\n", versionOp)
 	fmt.Fprintf(&b, "def readerGroupOptions : List (String × String) := [%s]\n", strings.Join(optPairs, ", "))
 	b.WriteString("end KV.Gen.Group\n")
